@@ -215,10 +215,15 @@ class R:
                     self.tags.add("pp.selfref.obj")
             elif me is not None:
                 self.tags.add("pp.nested_ref")
-            if self.cyc[ti] and self.in_args:
+            closes = me is not None and ti in self.reach and (ti == me or me in self.reach[ti])
+            if self.cyc[ti] and self.in_args and not closes:
+                # a macro that lies on a cycle, named inside an argument by something outside that cycle (known finding: its paint
+                # is lost).  Naming an enclosing, still active macro inside an argument is a different mechanism and stays in.
                 if "pp.cyclic_in_arg" in self.off:
                     return IDS[4]
                 self.tags.add("pp.cyclic_in_arg")
+            elif self.cyc[ti] and self.in_args:
+                self.tags.add("pp.active_macro_in_arg")
             if it[2] is None:
                 if tgt["fn"]:
                     self.tags.add("pp.fn_name_no_paren")
